@@ -1056,6 +1056,8 @@ class Interp:
                 raise CheckerError(f'operator {type(op).__name__} unsupported')
         if self._intish(a) and self._intish(b):
             x, y = self.ex(a), self.ex(b)
+            if isinstance(op, ast.Div) and getattr(self, 'sym_truediv', None) is not None:
+                return self.sym_truediv(self, a, b, node)
             if isinstance(op, ast.Add):
                 return self.wrap(x + y)
             if isinstance(op, ast.Sub):
